@@ -18,7 +18,7 @@ func main() {
 	}
 	deadline := time.Now().Add(4 * time.Minute)
 	if run.Thorough() {
-		deadline = time.Now().Add(25 * time.Minute)
+		deadline = time.Now().Add(12 * time.Minute)
 	}
 	if run.Replay != "" {
 		var rp struct {
